@@ -20,7 +20,8 @@ def bit(x, i):
 
 def nary(cls, fold, unit=None, neg_w=False, minn=1):
     def make(s, c):
-        ins = [s.wire('i%d' % k, c['w']) for k in range(c['n'])]
+        # 'ws' (optional): one width per operand -- operands of different widths are accepted by the constructors
+        ins = [s.wire('i%d' % k, (c['ws'][k] if c.get('ws') else c['w'])) for k in range(c['n'])]
         r = s.wire('r', c['rw'])
         return cls(s, 'dut', ins, r), {'i%d' % k: w for k, w in enumerate(ins)}, {'r': r}
 
@@ -37,7 +38,8 @@ def nary(cls, fold, unit=None, neg_w=False, minn=1):
 def nary_cfgs(t, minn=1):
     ns = [n for n in ((1, 2, 3, 4, 5, 6) if t == 'quick' else (1, 2, 3, 4, 5, 6, 8, 16)) if n >= minn]
     ws = (1, 2, 3, 8) if t == 'quick' else (1, 2, 3, 8, 32, 64)
-    return [dict(n=n, w=w, rw=w) for n in ns for w in ws]
+    mixed = [dict(n=len(x), w=max(x), ws=x, rw=rw) for x in ((1, 3, 3), (3, 1, 3), (3, 3, 1), (2, 3, 4, 4)) for rw in (3, 4, 6) if len(x) >= minn]
+    return [dict(n=n, w=w, rw=w) for n in ns for w in ws] + mixed
 
 
 for _name, _fold, _neg, _minn in (('And', band, False, 1), ('Or', bor, False, 1), ('Xor', bxor, False, 2), ('Nor', bor, True, 1)):
@@ -47,16 +49,18 @@ for _name, _fold, _neg, _minn in (('And', band, False, 1), ('Or', bor, False, 1)
 
 def two(cls, f):
     def make(s, c):
-        a = s.wire('a', c['w']); b = s.wire('b', c['w']); r = s.wire('r', c['w'])
+        a = s.wire('a', c.get('aw', c['w'])); b = s.wire('b', c.get('bw', c['w'])); r = s.wire('r', c.get('rw', c['w']))
         return cls(s, 'dut', a, b, r), {'a': a, 'b': b}, {'r': r}
     return make, (lambda c, I, W: {'r': f(I['a'], I['b'])})
 
 
 _w1 = lambda t: [dict(w=w) for w in ((1, 2, 3, 4, 5, 8) if t == 'quick' else (1, 2, 3, 4, 5, 8, 16, 32, 33, 64))]
+# operands and result of different widths (narrow first / second operand, wider / narrower result)
+_w2 = lambda t: _w1(t) + [dict(w=max(x), aw=x[0], bw=x[1], rw=x[2]) for x in ((1, 3, 3), (3, 1, 3), (1, 1, 3), (2, 2, 4), (4, 4, 2), (3, 4, 6), (4, 2, 1))]
 for _name, _f in (('Nand2', lambda a, b: sub(neg(band(a, b)), 1)), ('Nor2', lambda a, b: sub(neg(bor(a, b)), 1)), ('Xor2', bxor),
                   ('And2', band), ('Or2', bor)):
     _mk, _sp = two(getattr(B, _name), _f)
-    block(_name, props=('C08',), file=FB, make=_mk, spec=_sp, cfgs=_w1)
+    block(_name, props=('C08',), file=FB, make=_mk, spec=_sp, cfgs=_w2)
 
 
 def _mk_1(cls, rw=None):
@@ -360,7 +364,7 @@ block('ComparatorSignedUnsigned', props=('C08',), file=FR, make=_mk_cmpsu, spec=
 
 def _mk_mm(cls):
     def make(s, c):
-        a = s.wire('a', c['w']); b = s.wire('b', c['w']); r = s.wire('r', c['w'])
+        a = s.wire('a', c.get('aw', c['w'])); b = s.wire('b', c.get('bw', c['w'])); r = s.wire('r', c.get('rw', c['w']))
         return cls(s, 'dut', a, b, r), {'a': a, 'b': b}, {'r': r}
     return make
 
